@@ -126,8 +126,11 @@ def build_test(mode, pkg, race=False, extra_replace=None):
         os.makedirs(rundir, exist_ok=True)
         out = os.path.join(rundir, "%s-%s%s.test" % (mode, pkg.replace("/", "_"), "-race" if race else ""))
         cmd = ["go", "test", "-c", "-vet=off", "-overlay", ov, "-o", out]
-        if race:
+        if race and not os.environ.get("VERIF_COVER"):
             cmd.append("-race")
+        if os.environ.get("VERIF_COVER"):
+            # development aid: statement coverage of the SDK by the plain-build and free-running parts
+            cmd += ["-cover", "-coverpkg=./mcp,./auth,./internal/authutil,./internal/json,./internal/jsonrpc2,./internal/util,./internal/xcontext,./jsonrpc,./oauthex"]
         cmd.append("./" + pkg)
         t0 = time.time()
         r = run(cmd, cwd=REPO, env=goenv(), capture_output=True, text=True)
@@ -204,6 +207,9 @@ def run_part(prop, part, tier, replay=None, seed=0, known_file=None, binary=None
             for f in glob.glob(outp + ".race.*"):
                 os.remove(f)
         cmd = [binary, "-test.run", "^%s$" % test, "-test.count=1", "-test.timeout=0"]
+        if os.environ.get("VERIF_COVER"):
+            os.makedirs(os.environ["VERIF_COVER"], exist_ok=True)
+            cmd.append("-test.gocoverdir=" + os.environ["VERIF_COVER"])
         if replay:
             cmd.append("-test.v")
         logf = open(outp + ".log", "w")
@@ -448,6 +454,8 @@ def check(prop, tier, replay=None, quiet=False):
         for part in cfg["parts"]:
             if part.get("tier_only") and part["tier_only"] != tier:
                 continue
+            if os.environ.get("VERIF_COVER") and part["mode"] == "instr":
+                continue  # coverage is measured on the uninstrumented sources only
             if os.environ.get("VERIF_ONLY_MODE") and part["mode"] != os.environ["VERIF_ONLY_MODE"]:
                 continue  # debugging aid: run only the parts of one build mode
             if replay:
